@@ -62,5 +62,72 @@ def main():
     sys.exit(1 if fails else 0)
 
 
+def main_more():
+    """bounded stand-in: further fixed networks -- a part of the network behind an out-of-service bus (AC and DC), voltage dependent loads at dead
+    buses, an out-of-service ext_grid next to a slack gen"""
+    fails = []
+    # (1) supply only through an out-of-service bus
+    def chain():
+        net = pp.create_empty_network()
+        a = pp.create_bus(net, 110.); b = pp.create_bus(net, 20.); c = pp.create_bus(net, 10.); d = pp.create_bus(net, 110.)
+        pp.create_ext_grid(net, a)
+        pp.create_line_from_parameters(net, a, d, 10., 0.06, 0.3, 10., 1.)
+        pp.create_transformer_from_parameters(net, a, b, 25., 110., 20., 0.4, 10., 10., 0.05)
+        pp.create_transformer_from_parameters(net, b, c, 10., 20., 10., 0.5, 6., 5., 0.1)
+        pp.create_load(net, c, 3., 1.); pp.create_load(net, d, 10., 2.)
+        net.bus.at[b, "in_service"] = False
+        return net, (a, b, c, d)
+    for name, run in (("rundcpp", pp.rundcpp), ("runpp", pp.runpp)):
+        net, (a, b, c, d) = chain()
+        try:
+            run(net)
+        except Exception as e:
+            if "Converge" in type(e).__name__:
+                fails.append(f"{name}: a network with a part that is only connected through an out-of-service bus does not converge ({type(e).__name__})")
+            else:
+                fails.append(f"{name}: {type(e).__name__}: {str(e)[:80]}")
+            continue
+        vm = net.res_bus.vm_pu
+        if not np.isnan(vm.at[c]):
+            fails.append(f"{name}: bus {c} is only connected through the out-of-service bus {b} (topology.unsupplied_buses: "
+                         f"{sorted(top.unsupplied_buses(net))}) but reports vm_pu = {vm.at[c]}")
+        if np.isnan(vm.at[d]) or np.isnan(net.res_bus.va_degree.at[d]) or np.isnan(net.res_ext_grid.p_mw.at[0]):
+            fails.append(f"{name}: supplied bus {d} / the ext_grid report NaN (va {net.res_bus.va_degree.at[d]}, slack p {net.res_ext_grid.p_mw.at[0]})")
+    # (2) voltage dependent loads: loads at dead buses report zero
+    net = pp.create_empty_network()
+    b = pp.create_buses(net, 4, 20.)
+    pp.create_ext_grid(net, b[0])
+    pp.create_line_from_parameters(net, b[0], b[1], 3., 0.12, 0.11, 250., 0.6)
+    pp.create_line_from_parameters(net, b[1], b[2], 3., 0.12, 0.11, 250., 0.6, in_service=False)
+    pp.create_load(net, b[1], 2., .5, const_z_p_percent=50., const_z_q_percent=50.)
+    pp.create_load(net, b[2], 1., .2); pp.create_load(net, b[3], 1.5, .3, const_i_p_percent=30., const_i_q_percent=30.)
+    net.bus.at[b[3], "in_service"] = False
+    pp.runpp(net)
+    bad = net.res_load[["p_mw", "q_mvar"]].loc[[1, 2]]
+    if bad.isna().any().any() or (bad != 0).any().any():
+        fails.append(f"voltage dependent loads in the net: the loads at the unsupplied bus {b[2]} and the out-of-service bus {b[3]} report "
+                     f"{bad.values.tolist()} instead of zero")
+    if net.res_bus.p_mw.loc[[b[2], b[3]]].notna().any() and (net.res_bus.p_mw.loc[[b[2], b[3]]].fillna(0) != 0).any():
+        fails.append("bus results at dead buses are not NaN / zero")
+    # (3) an out-of-service ext_grid next to a slack gen
+    for name, run in (("runpp", pp.runpp), ("rundcpp", pp.rundcpp)):
+        net = pp.create_empty_network()
+        b = pp.create_buses(net, 3, 110.)
+        pp.create_ext_grid(net, b[0], in_service=False)
+        pp.create_gen(net, b[1], p_mw=10., vm_pu=1.01, slack=True)
+        for f, t in ((0, 1), (1, 2)):
+            pp.create_line_from_parameters(net, b[f], b[t], 10., 0.06, 0.3, 10., 1.)
+        pp.create_load(net, b[2], 20., 5.)
+        run(net)
+        v = net.res_ext_grid.p_mw.at[0]
+        if np.isnan(v) or v != 0:
+            fails.append(f"{name}: the out-of-service ext_grid reports p_mw = {v} instead of zero")
+    for f in fails:
+        print("REPRODUCED:", f)
+    if not fails:
+        print("not reproduced: NaN results exactly at unsupplied / out-of-service buses, zero power for elements there")
+    sys.exit(1 if fails else 0)
+
+
 if __name__ == "__main__":
     main()
